@@ -82,13 +82,14 @@ C08Line(o) ==
       ob == o.resp.biases
       evs == BiasEvents(o)
   IN (IF Len(ob) = Len(rb) /\ \A k \in DOMAIN rb :
-            ob[k].name = rb[k].name /\ ob[k].applyProbability = BProb(rb[k], u)
+            Has(ob[k], "name") /\ Has(ob[k], "applyProbability") /\ Has(ob[k], "props")
+            /\ ob[k].name = rb[k].name /\ ob[k].applyProbability = BProb(rb[k], u)
       THEN {} ELSE {BFail("C08", "echo", "")})
      \cup (IF Len(evs) # Len(rb) THEN {BFail("C08", "events", "")}
            ELSE (IF \A k \in DOMAIN rb :
                        /\ (BProb(rb[k], u) >= u => evs[k].fired)
                        /\ (BProb(rb[k], u) <= 0 => ~evs[k].fired)
-                       /\ (~evs[k].fired => (Has(ob[k].props, "isnull") /\ BeforeOf(o, k) = evs[k].after))
+                       /\ (~evs[k].fired => (Has(ob[k], "props") /\ Has(ob[k].props, "isnull") /\ BeforeOf(o, k) = evs[k].after))
                  THEN {} ELSE {BFail("C08", "fire-rule", "")}))
 
 (* ---------------- C09: reports faithful, nothing modified after the fact ---------------- *)
